@@ -25,7 +25,7 @@ ASSUMPTIONS = [
     "python -O (assertions stripped) is out of scope",
 ]
 NSHARDS = {"quick": 16, "thorough": 16}
-N_CASES = {"quick": 1200, "thorough": 40000}   # per shard
+N_CASES = {"quick": 1200, "thorough": 90000}   # per shard
 REQUIRE = {"outcome:oom": 200, "outcome:ok": 200, "zero_tick_operators": 50, "multi_segment_operators": 100,
            "compared_ticks": 20000, "ambiguous_cases_resolved": 5, "retried_containers": 300, "retries_succeeded": 100, "neighbour_cases:cancel": 300, "neighbour_cases:random": 100}
 for _l in LAWS:
